@@ -169,7 +169,7 @@ def check_c19(chk, args):
                 tmp = C.FACTORIES[i][1]()
                 text = C.print_one(tmp)
                 del tmp
-                gc.collect()
+                gc.collect(1)     # the young generations: the classes just dropped (a full collection walks the whole harness heap)
                 ev.append({'v': i + 1, 'text': texts.get(text, -1), 'proj': C.projection(), 'same': True,
                            'raw': text[:300] if texts.get(text, -1) != base[i]['tid'] else None})
                 continue
